@@ -125,7 +125,7 @@ func (e histEngine) Rule() string {
 	if e.id == "C06" {
 		return "one case = a call history of 3..12 steps on one middleware over 1..3 accepted configurations (NewMiddleware, zero value+Reconfigure, SetDebug, Reconfigure, Reconfigure(nil)) with snapshot/restore faults at seeded positions: restore m.Reconfigure(m.Config()), restart m<-NewMiddleware(*m.Config()), double restore; at every fault the probe suite is compared before/after (also after three round trips), Config() must be a fixpoint from the first round trip on, and constructor twins are compared in both debug modes; observations alternate between a handler wrapped at creation and a fresh one; distinct = distinct plan hash; non-trivial = at least one restore/restart fault executed on a configured middleware"
 	}
-	return "one case = a call history of 2..10 steps on one middleware (passthrough or configured, debug on/off) with 1..3 rejected Reconfigure faults: a valid configuration different from the current one with 1..4 planted documented violations; at every fault the error must be non-nil and probe suite, Config() and the debug probe must be identical before and after; a third of the rejected configurations are derived from the live Config() plus appended valid origins; a SHADOW TWIN lives through the same history without the rejected calls and must stay indistinguishable (latent traces); observations alternate between a handler wrapped at creation and a fresh one; distinct = distinct plan hash; non-trivial = at least one rejected Reconfigure executed"
+	return "one case = a call history of 2..10 steps on one middleware (passthrough or configured, debug on/off) with 1..3 rejected Reconfigure faults: a valid configuration different from the current one with 1..4 planted documented violations; at every fault the error must be non-nil and probe suite, Config() and the debug probe must be identical before and after; a third of the rejected configurations are derived from the live Config() plus appended valid origins; at those faults the value Config() returned is also edited in place (one Origins element made invalid) and fed back, which must be rejected too; a SHADOW TWIN lives through the same history without the rejected calls and must stay indistinguishable (latent traces); observations alternate between a handler wrapped at creation and a fresh one; distinct = distinct plan hash; non-trivial = at least one rejected Reconfigure executed"
 }
 func (e histEngine) Budget(tier string) (int, time.Duration) {
 	if tier == "thorough" {
